@@ -1,7 +1,7 @@
 import re, json, sys
 n = 0
 for l in open(sys.argv[1] if len(sys.argv) > 1 else '/tmp/seedeval.log'):
-    m = re.match(r'(C\d\d-[a-i]) (\{.*?\}) (\{.*)', l)
+    m = re.match(r'(C\d\d-[a-j]) (\{.*?\}) (\{.*)', l)
     if m:
         n += 1
         r = json.loads(m.group(2))
